@@ -194,8 +194,14 @@ def funcdef(draw, indent=0, method=False, depth=0, hazards=(), feat=None):
     else:
         feat.append("doc:none")
     for i in range(draw(st.integers(1, 3))):
-        kind = draw(st.sampled_from(["assign", "comment", "call", "if", "blank", "for", "semi"]))
-        if kind == "assign":
+        kind = draw(st.sampled_from(["assign", "comment", "call", "if", "blank", "for", "semi", "ann-assign", "type-comment"]))
+        if kind == "ann-assign":
+            body.append(bpad + "%s: %s = %s" % (draw(names), draw(scal), draw(lit)))
+            feat.append("body-annotated-assignment")
+        elif kind == "type-comment":
+            body.append(bpad + "%s = %s  # type: %s" % (draw(names), draw(lit), draw(scal)))
+            feat.append("body-type-comment")
+        elif kind == "assign":
             body.append(bpad + "%s = %s  # c%d" % (draw(names), draw(lit), i))
         elif kind == "comment":
             body.append(bpad + "# note %s" % draw(sentence(1, 3)))
@@ -230,7 +236,10 @@ def classdef(draw, hazards=(), feat=None):
         ann = draw(st.booleans())
         if ann:
             feat.append("class-attr-annotated")
-        out.append("    %s%s = %s" % (n, ": " + draw(scal) if ann else "", draw(lit)))
+        tc = (not ann) and draw(st.integers(0, 3)) == 0
+        if tc:
+            feat.append("class-attr-type-comment")
+        out.append("    %s%s = %s%s" % (n, ": " + draw(scal) if ann else "", draw(lit), "  # type: " + draw(scal) if tc else ""))
     for _ in range(draw(st.integers(1, 2))):
         out.append("")
         out += draw(funcdef(indent=4, method=True, hazards=hazards, feat=feat))
